@@ -108,11 +108,11 @@ func (server *Server) Start() error {
 	verifYield("start.opened", server)
 
 	if server.IsPortEnabled() {
-		go server.serve()
+		go server.serve(server.portListener)
 	}
 
 	if server.IsTLSPortEnabled() {
-		go server.tlsServe()
+		go server.tlsServe(server.tlsPortListener, server.tlsConfig)
 	}
 
 	return nil
@@ -208,15 +208,16 @@ func (server *Server) close() error {
 }
 
 // serve handles client connections.
-func (server *Server) serve() error {
-	defer server.close()
+func (server *Server) serve(l net.Listener) error {
+	if l == nil {
+		return nil
+	}
+	// Closes only the listener of this accept loop because the server
+	// might have already opened new listeners by Restart().
+	defer l.Close()
 
-	l := server.portListener
 	verifYield("accept.entry", l)
 	for {
-		if l == nil {
-			break
-		}
 		conn, err := l.Accept()
 		if err != nil {
 			verifYield("accept.exit", l)
@@ -225,26 +226,26 @@ func (server *Server) serve() error {
 
 		go server.receive(conn, nil)
 	}
-
-	return nil
 }
 
 // tlsServe handles client connections with TLS.
-func (server *Server) tlsServe() error {
-	defer server.close()
-	l := server.tlsPortListener
+func (server *Server) tlsServe(l net.Listener, tlsConfig *tls.Config) error {
+	if l == nil {
+		return nil
+	}
+	// Closes only the listener of this accept loop because the server
+	// might have already opened new listeners by Restart().
+	defer l.Close()
+
 	verifYield("accept.entry", l)
 	for {
-		if l == nil {
-			break
-		}
 		conn, err := l.Accept()
 		if err != nil {
 			verifYield("accept.exit", l)
 			return err
 		}
 
-		tlsConn := tls.Server(conn, server.tlsConfig)
+		tlsConn := tls.Server(conn, tlsConfig)
 		if err := tlsConn.Handshake(); err != nil {
 			return err
 		}
@@ -252,8 +253,6 @@ func (server *Server) tlsServe() error {
 
 		go server.receive(tlsConn, &tlsState)
 	}
-
-	return nil
 }
 
 // receive handles a client connection.
